@@ -456,7 +456,9 @@ fn run_one(family: &str, seed: u64, idx: u64, ch: Choices, trace: bool, fail_cal
                 r.note(2, size_class(old) * 64 + size_class(new));
                 r.tr(format!("cabi_realloc(block#{i}, {old}, {align}, {new}) -> {}", if p == ptr { "same address" } else { "moved" }));
                 check_sim_err(&mut r, "cabi_realloc(grow/shrink)");
-                if fail_call == Some(guest_calls) {
+                // (a request for 0 bytes allocates nothing, so nothing can fail: the armed
+                // failure then hits the next allocation)
+                if fail_call == Some(guest_calls) && new > 0 {
                     r.violate("ALLOC-FAIL", "cabi_realloc", format!("reallocation to {new} bytes failed but cabi_realloc returned normally"));
                 }
                 if sim().reallocs_in_place > ip0 {
@@ -798,8 +800,9 @@ fn main() {
             if trace_all {
                 println!("TRACE-TEXT-HASH {text_hash:016x}");
             }
+            let profile = if cfg!(debug_assertions) { "native" } else { "release" };
             println!(
-                "SUMMARY {{\"family\":\"{fam}\",\"feature_set\":\"native\",\"start\":{start},\"runs\":{count},\"steps\":{steps},\"callbacks\":0,\"distinct_traces\":{},\"distinct_nontrivial\":{},\"states\":0,\"leak_check_skipped\":0,\"wall_s\":{:.3},\"faults\":{{{}}},\"runs_with_fault\":{{{}}},\"samples\":[{}]}}",
+                "SUMMARY {{\"family\":\"{fam}\",\"feature_set\":\"{profile}\",\"start\":{start},\"runs\":{count},\"steps\":{steps},\"callbacks\":0,\"distinct_traces\":{},\"distinct_nontrivial\":{},\"states\":0,\"leak_check_skipped\":0,\"wall_s\":{:.3},\"faults\":{{{}}},\"runs_with_fault\":{{{}}},\"samples\":[{}]}}",
                 dh.len(),
                 dn.len(),
                 t0.elapsed().as_secs_f64(),
